@@ -137,6 +137,9 @@ def main():
             print(json.dumps(r)[:400], flush=True)
     results.sort(key=lambda r: r["id"])
     name = "results_seeded.json" if a.seeded else "results.json"
+    sd = os.environ.get("SELFTEST_SEED", "0")
+    if sd != "0":
+        name = name.replace(".json", f"_seed{sd}.json")     # screening runs under another seed do not replace the record
     if not only:
         with open(os.path.join(HERE, name), "w") as f:
             json.dump(results, f, indent=1)
